@@ -135,6 +135,10 @@ class CMSSystem(System):
                         # removals beyond what was added are legal for a sketch: states with negative counters
                         cfgs.append(dict(cls=cls, width=w, depth_=d, strat=strat, hitters=2, threshold=2, nkeys=2, depth=depth,
                                          amounts=[1, 3], free_remove=True, seed=seed, cost=500))
+            if cls in ("min", "hh") and prop in ("C05", "C19", "C14"):
+                # more than 1024 counters, not a multiple of 1024
+                cfgs.append(dict(cls=cls, width=300, depth_=4, strat="fnv", hitters=2, threshold=2, nkeys=3, depth=3, amounts=[1, 300],
+                                 seed=seed, cost=2000))
             for sizing in ((0.5, 0.9), (0.9, 0.7)):
                 f = CountMinSketch(confidence=sizing[0], error_rate=sizing[1])
                 if cls == "meanmin" and f.width == 1:
